@@ -142,7 +142,12 @@ Record stream := {
   s_is_stream : bool;     (* `stream` (true) or `query` (false) *)
   s_one_pass : bool;
   s_start : N;            (* msgs_to_send.start *)
-  s_end : N               (* msgs_to_send.end *)
+  s_end : N;              (* msgs_to_send.end *)
+  (* the part of StreamContext that only process_file_context uses (Remote/DispatchTick.v) *)
+  s_sent_end : N;                 (* msgs_sent.end *)
+  s_filter : option (N -> bool);  (* filters_active: which message indices match_filters accepts *)
+  s_filtered : list N;            (* filtered_msgs *)
+  s_last : N                      (* all_msgs_last_processed_len *)
 }.
 
 Record fctx := {
@@ -150,7 +155,9 @@ Record fctx := {
   fc_sort : bool;
   fc_plugins : list (string * bool);   (* plugin_states in order: name in the state value, has apply_command *)
   fc_paused : bool;
-  fc_streams : list stream
+  fc_streams : list stream;
+  fc_all_len : N;                      (* all_msgs.len() + drained_all_msgs *)
+  fc_drained : N                       (* drained_all_msgs *)
 }.
 
 Record state := {
@@ -162,9 +169,11 @@ Definition init_state (first_id : N) : state := {| st_fc := None; st_next_id := 
 
 Definition with_fc (st : state) (fc : fctx) : state := {| st_fc := Some fc; st_next_id := st_next_id st |}.
 Definition set_paused (fc : fctx) (p : bool) : fctx :=
-  {| fc_collect := fc_collect fc; fc_sort := fc_sort fc; fc_plugins := fc_plugins fc; fc_paused := p; fc_streams := fc_streams fc |}.
+  {| fc_collect := fc_collect fc; fc_sort := fc_sort fc; fc_plugins := fc_plugins fc; fc_paused := p; fc_streams := fc_streams fc;
+     fc_all_len := fc_all_len fc; fc_drained := fc_drained fc |}.
 Definition set_streams (fc : fctx) (l : list stream) : fctx :=
-  {| fc_collect := fc_collect fc; fc_sort := fc_sort fc; fc_plugins := fc_plugins fc; fc_paused := fc_paused fc; fc_streams := l |}.
+  {| fc_collect := fc_collect fc; fc_sort := fc_sort fc; fc_plugins := fc_plugins fc; fc_paused := fc_paused fc; fc_streams := l;
+     fc_all_len := fc_all_len fc; fc_drained := fc_drained fc |}.
 (* fetch_add(1, Relaxed) on an AtomicU32: returns the old value, wraps *)
 Definition bump (st : state) : state := {| st_fc := st_fc st; st_next_id := wrapping_add 32 (st_next_id st) 1 |}.
 
@@ -182,7 +191,8 @@ Inductive open_res :=
 | OpenOk (mode : collect_mode) (sort : bool) (plugins : list (string * bool)).
 Inductive stream_res :=
 | StreamErr
-| StreamOk (one_pass : bool) (w_start w_end : N) (nf_pos nf_neg nf_ev : N).
+| StreamOk (one_pass : bool) (w_start w_end : N) (nf_pos nf_neg nf_ev : N)
+           (matches : N -> bool).   (* match_filters on the message with index i (used while a filter is active) *)
 Inductive json_shape :=
 | JBad            (* serde_json::from_str fails *)
 | JNotObject      (* parses, but as_object() is None *)
@@ -255,136 +265,174 @@ Fixpoint plugin_loop (name : string) (ps : list (string * bool)) : list reply * 
       else plugin_loop name r
   end.
 
-Definition new_stream (id : N) (is_stream one_pass : bool) (ws we : N) : stream :=
-  {| s_id := id; s_is_stream := is_stream; s_one_pass := one_pass; s_start := ws; s_end := we |}.
+(* StreamContext::from: nothing processed or sent yet *)
+Definition new_stream (id : N) (is_stream one_pass : bool) (ws we : N) (filter : option (N -> bool)) : stream :=
+  {| s_id := id; s_is_stream := is_stream; s_one_pass := one_pass; s_start := ws; s_end := we;
+     s_sent_end := ws; s_filter := filter; s_filtered := []; s_last := 0 |}.
+(* stream_change_window: msgs_to_send = start..end, msgs_sent = start..start, new id; the rest is kept *)
+Definition renew_stream (s : stream) (new_id ws we : N) : stream :=
+  {| s_id := new_id; s_is_stream := s_is_stream s; s_one_pass := s_one_pass s; s_start := ws; s_end := we;
+     s_sent_end := ws; s_filter := s_filter s; s_filtered := s_filtered s; s_last := s_last s |}.
 
-Definition step (st : state) (t : string) (o : orc) : res (state * list reply) :=
-  let cmd_params := splitn2 sp t in
-  let command := match cmd_params with [] => "" | c :: _ => c end in
-  let params := match cmd_params with _ :: p :: _ => p | _ => "" end in
-  if command =?s "open" then
-    if is_some (st_fc st) then
-      (_fc <- unwrap_chk site_fc_unwrap_open (st_fc st) ;;
-       Ok (st, [RErr EOpenAlready]))%res
-    else
-      match o_open o with
-      | OpenOk mode sort plugins =>
-          let fc := {| fc_collect := mode; fc_sort := sort; fc_plugins := plugins;
-                       fc_paused := collect_eqb mode COnePass; fc_streams := [] |} in
-          Ok (with_fc st fc, [ROk (OkOpen (N.of_nat (List.length plugins)))])
-      | OpenErr => Ok (st, [RErr EOpenFailed])
+(* command word and argument text: `t.splitn(2, ' ')` with the guarded accesses [0] and [1] *)
+Definition command_of (t : string) : string :=
+  match splitn2 sp t with [] => "" | c :: _ => c end.
+Definition params_of (t : string) : string :=
+  match splitn2 sp t with _ :: p :: _ => p | _ => "" end.
+
+Definition do_open (st : state) (o : orc) : res (state * list reply) :=
+  if is_some (st_fc st) then
+    (_fc <- unwrap_chk site_fc_unwrap_open (st_fc st) ;;
+     Ok (st, [RErr EOpenAlready]))%res
+  else
+    match o_open o with
+    | OpenOk mode sort plugins =>
+        let fc := {| fc_collect := mode; fc_sort := sort; fc_plugins := plugins;
+                     fc_paused := collect_eqb mode COnePass; fc_streams := [];
+                     fc_all_len := 0; fc_drained := 0 |} in
+        Ok (with_fc st fc, [ROk (OkOpen (N.of_nat (List.length plugins)))])
+    | OpenErr => Ok (st, [RErr EOpenFailed])
+    end.
+
+Definition do_pause (st : state) (command : string) : res (state * list reply) :=
+  match st_fc st with
+  | Some fc =>
+      let p := command =?s "pause" in
+      Ok (with_fc st (set_paused fc p), [ROk (OkPaused p)])
+  | None => Ok (st, [RErr ENoFileOpenFirst])
+  end.
+
+(* take(): the context is gone whatever follows; stop flag, drain of the final channel until it is
+   disconnected and the joins are thread-level (C13: a dropped/drained consumer terminates) *)
+Definition do_close (st : state) : res (state * list reply) :=
+  if is_some (st_fc st) then
+    (_old <- unwrap_chk site_fc_take_unwrap (st_fc st) ;;
+     Ok ({| st_fc := None; st_next_id := st_next_id st |}, [ROk OkClose]))%res
+  else Ok (st, [RErr ENoFileOpenFirst]).
+
+Definition do_stream (st : state) (command : string) (o : orc) : res (state * list reply) :=
+  match st_fc st with
+  | Some fc =>
+      match fc_collect fc with
+      | CNone => Ok (st, [RErr ECollectNone])
+      | _ =>
+          match o_stream o with
+          | StreamOk one_pass ws we np nn ne =>
+              (* StreamContext::from took an id from the global counter *)
+              let id := st_next_id st in
+              let st1 := bump st in
+              if negb one_pass && collect_eqb (fc_collect fc) COnePass then
+                Ok (st1, [RErr EOnePassOnly])
+              else
+                let filters_active := 0 <? np + nn + ne in
+                let s := new_stream id (command =?s "stream") one_pass ws we
+                                    (if filters_active then Some matches else None) in
+                Ok (with_fc st1 (set_streams fc (fc_streams fc ++ [s])%list),
+                    [ROk (OkStream (command =?s "stream") id np nn ne)])
+          | StreamErr => Ok (st, [RErr EStreamCtx])
+          end
       end
-  else if (command =?s "pause") || (command =?s "resume") then
-    match st_fc st with
-    | Some fc =>
-        let p := command =?s "pause" in
-        Ok (with_fc st (set_paused fc p), [ROk (OkPaused p)])
-    | None => Ok (st, [RErr ENoFileOpenFirst])
-    end
-  else if command =?s "close" then
-    if is_some (st_fc st) then
-      (* take(): the context is gone whatever follows; stop flag, drain of the final channel until it
-         is disconnected and the joins are thread-level (C13: a dropped/drained consumer terminates) *)
-      (_old <- unwrap_chk site_fc_take_unwrap (st_fc st) ;;
-       Ok ({| st_fc := None; st_next_id := st_next_id st |}, [ROk OkClose]))%res
-    else Ok (st, [RErr ENoFileOpenFirst])
-  else if (command =?s "stream") || (command =?s "query") then
-    match st_fc st with
-    | Some fc =>
-        match fc_collect fc with
-        | CNone => Ok (st, [RErr ECollectNone])
-        | _ =>
-            match o_stream o with
-            | StreamOk one_pass ws we np nn ne =>
-                (* StreamContext::from took an id from the global counter *)
-                let id := st_next_id st in
-                let st1 := bump st in
-                if negb one_pass && collect_eqb (fc_collect fc) COnePass then
-                  Ok (st1, [RErr EOnePassOnly])
-                else
-                  let s := new_stream id (command =?s "stream") one_pass ws we in
-                  Ok (with_fc st1 (set_streams fc (fc_streams fc ++ [s])%list), [ROk (OkStream (command =?s "stream") id np nn ne)])
-            | StreamErr => Ok (st, [RErr EStreamCtx])
-            end
-        end
-    | None => Ok (st, [RErr ENoFileOpenFirst])
-    end
-  else if (command =?s "stop") || (command =?s "stream_binary_search") || (command =?s "stream_change_window")
-          || (command =?s "stream_search") then
-    let params_splitted := split_on sp params in
-    (param0 <- nth_chk site_params_splitted_0 params_splitted 0 ;;
-     match parse_u32 param0 with
-     | Some id =>
-         match st_fc st with
-         | Some fc =>
-             match position id (fc_streams fc) with
-             | Some pos =>
-                 if command =?s "stream_search" then
-                   (_stream <- nth_chk site_streams_index (fc_streams fc) pos ;;
-                    let params_json := match split_once sp params with Some (_, j) => j | None => "" end in
-                    let '(written, ok) := search_params o id params_json in
-                    Ok (st, (written ++ (if ok then [] else [RErr ESearchParams]))%list))
-                 else if command =?s "stream_binary_search" then
-                   (_stream <- nth_chk site_streams_index (fc_streams fc) pos ;;
-                    if Nat.ltb 1 (List.length params_splitted) then
-                      (search_text <- nth_chk site_params_splitted_1 params_splitted 1 ;;
-                       match split_once "="%char search_text with
-                       | Some (k, what) =>
-                           if k =?s "index" then
-                             let wanted := or_default (parse_u32 what) in
-                             if wanted <? o_nmsgs o then Ok (st, [ROk (OkBinSearch id)])
-                             else Ok (st, [RErr (EBinSearchFailed id)])
-                           else if k =?s "time_ms" then
-                             let _time_us := saturating_mul u64max (or_default (parse_u64 what)) 1000 in
-                             Ok (st, [ROk (OkBinSearch id)])
-                           else Ok (st, [RErr (EBinSearchUnknown id)])
-                       | None => Ok (st, [RErr (EBinSearchUnknown id)])
-                       end)
-                    else Ok (st, [RErr (ETooFewParams id)]))
-                 else if command =?s "stream_change_window" then
-                   if Nat.ltb 1 (List.length params_splitted) then
-                     (stream <- nth_chk site_streams_index (fc_streams fc) pos ;;
-                      window_text <- nth_chk site_params_splitted_1 params_splitted 1 ;;
-                      match split_once ","%char window_text with
-                      | Some (s, e) =>
-                          let ws := or_default (parse_usize s) in
-                          let we := or_default (parse_usize e) in
-                          let new_id := st_next_id st in      (* stream.new_id() *)
-                          let stream' := new_stream new_id (s_is_stream stream) (s_one_pass stream) ws we in
-                          Ok (with_fc (bump st) (set_streams fc (replace_at (fc_streams fc) pos stream')),
-                              [ROk (OkWindow id new_id ws we)])
-                      | None => Ok (st, [RErr (EWindowParse id)])
-                      end)
-                   else Ok (st, [RErr (ETooFewParams id)])
-                 else if command =?s "stop" then
-                   (streams' <- remove_chk site_streams_remove (fc_streams fc) pos ;;
-                    Ok (with_fc st (set_streams fc streams'), [ROk (OkStop id)]))
-                 else Ok (st, [RErr (EInnerDefault id)])
-             | None => Ok (st, [RErr (EIdNotFound id)])
-             end
-         | None => Ok (st, [RErr ENoFileOpened])
-         end
-     | None => Ok (st, [RErr ENotValidId])
-     end)%res
-  else if command =?s "plugin_cmd" then
-    match st_fc st with
-    | Some fc =>
-        match o_json o with
-        | JBad => Ok (st, [RErr EJsonParse])
-        | JNotObject => Ok (st, [RErr ENotObject])
-        | JMissing => Ok (st, [RErr EMissCmdName])
-        | JGood name =>
-            let '(written, found) := plugin_loop name (fc_plugins fc) in
-            Ok (st, (written ++ (if found then [] else [RErr EPluginNotFound]))%list)
-        end
-    | None => Ok (st, [RErr ENoFileOpenFirst])
-    end
-  else if command =?s "fs" then
-    match o_json o with
-    | JBad => Ok (st, [RErr EJsonParse])
-    | JNotObject => Ok (st, [RErr ENotObject])
-    | _ => if o_fs_ok o then Ok (st, [ROk OkFs]) else Ok (st, [RErr EFsErr])
-    end
+  | None => Ok (st, [RErr ENoFileOpenFirst])
+  end.
+
+(* the inner `match command` once the stream was found at index pos *)
+Definition do_id_found (st : state) (fc : fctx) (command params : string) (params_splitted : list string)
+    (id : N) (pos : nat) (o : orc) : res (state * list reply) :=
+  if command =?s "stream_search" then
+    (_stream <- nth_chk site_streams_index (fc_streams fc) pos ;;
+     (* params.split_once(' ').map_or("", |p| p.1) *)
+     let params_json := match split_once sp params with Some (_, j) => j | None => "" end in
+     let r := search_params o id params_json in    (* frames it wrote, Ok/Err *)
+     Ok (st, (fst r ++ (if snd r then [] else [RErr ESearchParams]))%list))%res
+  else if command =?s "stream_binary_search" then
+    (_stream <- nth_chk site_streams_index (fc_streams fc) pos ;;
+     if Nat.ltb 1 (List.length params_splitted) then
+       (search_text <- nth_chk site_params_splitted_1 params_splitted 1 ;;
+        match split_once "="%char search_text with
+        | Some (k, what) =>
+            if k =?s "index" then
+              let wanted := or_default (parse_u32 what) in
+              if wanted <? o_nmsgs o then Ok (st, [ROk (OkBinSearch id)])
+              else Ok (st, [RErr (EBinSearchFailed id)])
+            else if k =?s "time_ms" then
+              let _time_us := saturating_mul u64max (or_default (parse_u64 what)) 1000 in
+              Ok (st, [ROk (OkBinSearch id)])
+            else Ok (st, [RErr (EBinSearchUnknown id)])
+        | None => Ok (st, [RErr (EBinSearchUnknown id)])
+        end)
+     else Ok (st, [RErr (ETooFewParams id)]))%res
+  else if command =?s "stream_change_window" then
+    if Nat.ltb 1 (List.length params_splitted) then
+      (stream <- nth_chk site_streams_index (fc_streams fc) pos ;;
+       window_text <- nth_chk site_params_splitted_1 params_splitted 1 ;;
+       match split_once ","%char window_text with
+       | Some (s, e) =>
+           let ws := or_default (parse_usize s) in
+           let we := or_default (parse_usize e) in
+           let new_id := st_next_id st in      (* stream.new_id() *)
+           let stream' := renew_stream stream new_id ws we in
+           Ok (with_fc (bump st) (set_streams fc (replace_at (fc_streams fc) pos stream')),
+               [ROk (OkWindow id new_id ws we)])
+       | None => Ok (st, [RErr (EWindowParse id)])
+       end)%res
+    else Ok (st, [RErr (ETooFewParams id)])
+  else if command =?s "stop" then
+    (streams' <- remove_chk site_streams_remove (fc_streams fc) pos ;;
+     Ok (with_fc st (set_streams fc streams'), [ROk (OkStop id)]))%res
+  else Ok (st, [RErr (EInnerDefault id)]).
+
+Definition do_id (st : state) (command params : string) (o : orc) : res (state * list reply) :=
+  let params_splitted := split_on sp params in
+  (param0 <- nth_chk site_params_splitted_0 params_splitted 0 ;;
+   match parse_u32 param0 with
+   | Some id =>
+       match st_fc st with
+       | Some fc =>
+           match position id (fc_streams fc) with
+           | Some pos => do_id_found st fc command params params_splitted id pos o
+           | None => Ok (st, [RErr (EIdNotFound id)])
+           end
+       | None => Ok (st, [RErr ENoFileOpened])
+       end
+   | None => Ok (st, [RErr ENotValidId])
+   end)%res.
+
+Definition do_plugin (st : state) (o : orc) : res (state * list reply) :=
+  match st_fc st with
+  | Some fc =>
+      match o_json o with
+      | JBad => Ok (st, [RErr EJsonParse])
+      | JNotObject => Ok (st, [RErr ENotObject])
+      | JMissing => Ok (st, [RErr EMissCmdName])
+      | JGood name =>
+          let r := plugin_loop name (fc_plugins fc) in   (* frames written in the loop, found_plugin *)
+          Ok (st, (fst r ++ (if snd r then [] else [RErr EPluginNotFound]))%list)
+      end
+  | None => Ok (st, [RErr ENoFileOpenFirst])
+  end.
+
+Definition do_fs (st : state) (o : orc) : res (state * list reply) :=
+  match o_json o with
+  | JBad => Ok (st, [RErr EJsonParse])
+  | JNotObject => Ok (st, [RErr ENotObject])
+  | _ => if o_fs_ok o then Ok (st, [ROk OkFs]) else Ok (st, [RErr EFsErr])
+  end.
+
+Definition is_id_command (command : string) : bool :=
+  (command =?s "stop") || (command =?s "stream_binary_search") || (command =?s "stream_change_window")
+  || (command =?s "stream_search").
+
+(* process_incoming_text_message: the outer `match command` *)
+Definition step (st : state) (t : string) (o : orc) : res (state * list reply) :=
+  let command := command_of t in
+  let params := params_of t in
+  if command =?s "open" then do_open st o
+  else if (command =?s "pause") || (command =?s "resume") then do_pause st command
+  else if command =?s "close" then do_close st
+  else if (command =?s "stream") || (command =?s "query") then do_stream st command o
+  else if is_id_command command then do_id st command params o
+  else if command =?s "plugin_cmd" then do_plugin st o
+  else if command =?s "fs" then do_fs st o
   else Ok (st, [RUnknown t]).
 
 (* ------------------------------------------------------------------ events and histories *)
